@@ -174,6 +174,33 @@ func (c *Ctx) Var(name string, s Sort) *Term {
 	return v
 }
 
+// DecimalCases renders a non-negative integer term v (BV64, known < 10^maxDigits)
+// as guarded decimal strings: for each digit count k the guard 10^(k-1) <= v < 10^k
+// and k byte terms ('0' + digit). Used identically by the executor's model of
+// strconv.FormatFloat on integer-valued doubles and by the reference semantics.
+func (c *Ctx) DecimalCases(v *Term, maxDigits int) (guards []*Term, bytes [][]*Term) {
+	v32 := c.Extract(v, 31, 0)
+	pow := uint64(1)
+	for k := 1; k <= maxDigits; k++ {
+		lo, hi := pow, pow*10
+		if k == 1 {
+			lo = 0
+		}
+		g := c.And(c.BvCmp(OBvUle, c.BVC(32, lo), v32), c.BvCmp(OBvUlt, v32, c.BVC(32, hi)))
+		var bs []*Term
+		div := pow
+		for j := 0; j < k; j++ {
+			d := c.BvBin(OBvURem, c.BvBin(OBvUDiv, v32, c.BVC(32, div)), c.BVC(32, 10))
+			bs = append(bs, c.BvBin(OBvAdd, c.Extract(d, 7, 0), c.BVC(8, '0')))
+			div /= 10
+		}
+		guards = append(guards, g)
+		bytes = append(bytes, bs)
+		pow *= 10
+	}
+	return
+}
+
 // IntVar is the 64-bit term of an integer input known to lie in [lo,hi]. Small
 // ranges are declared as 8-bit variables and extended, which keeps the
 // bit-blasted problem small; the variable keeps the given name.
@@ -183,6 +210,9 @@ func (c *Ctx) IntVar(name string, lo, hi int64) *Term {
 	}
 	if lo >= -128 && hi < 128 {
 		return c.Sext(c.Var(name, BV(8)), 64)
+	}
+	if lo >= -(1<<31) && hi < 1<<31 {
+		return c.Sext(c.Var(name, BV(32)), 64)
 	}
 	return c.Var(name, BV(64))
 }
@@ -195,6 +225,9 @@ func IntVarValue(v Val, lo, hi int64) int64 {
 	if lo >= -128 && hi < 128 {
 		return int64(int8(v.U))
 	}
+	if lo >= -(1<<31) && hi < 1<<31 {
+		return int64(int32(v.U))
+	}
 	return int64(v.U)
 }
 
@@ -202,6 +235,9 @@ func IntVarValue(v Val, lo, hi int64) int64 {
 func IntVarEncode(x int64, lo, hi int64) Val {
 	if lo >= -128 && hi < 128 {
 		return Val{uint64(x) & 0xff}
+	}
+	if lo >= -(1<<31) && hi < 1<<31 {
+		return Val{uint64(x) & 0xffffffff}
 	}
 	return Val{uint64(x)}
 }
@@ -458,15 +494,66 @@ func (c *Ctx) Sext(a *Term, w int) *Term {
 }
 
 func (c *Ctx) FpBin(op Op, a, b *Term) *Term { return c.bin(op, FP, a, b) }
-func (c *Ctx) FpCmp(op Op, a, b *Term) *Term { return c.bin(op, Bool, a, b) }
+// asSmallInt: t is the exact FP image of a BV64 integer that fits 32 bits
+// (the extension of a narrower term, or an integral constant below 2^31).
+func (c *Ctx) asSmallInt(t *Term) (*Term, bool) {
+	if t.Op == OFpFromSBV && t.Args[0].Sort.W == 64 {
+		in := t.Args[0]
+		if (in.Op == OSext || in.Op == OZext) && in.Args[0].Sort.W <= 32 {
+			return in, true
+		}
+		if in.Op == OConst && int64(in.U) > -(1<<31) && int64(in.U) < 1<<31 {
+			return in, true
+		}
+	}
+	if t.Op == OConst && t.Sort.K == KFP {
+		f := math.Float64frombits(t.U)
+		if f == math.Trunc(f) && math.Abs(f) < 1<<31 && !(f == 0 && math.Signbit(f)) {
+			return c.BVC(64, uint64(int64(f))), true
+		}
+	}
+	return nil, false
+}
+
+func (c *Ctx) FpCmp(op Op, a, b *Term) *Term {
+	// comparisons of exactly converted small integers are integer comparisons
+	if ia, ok := c.asSmallInt(a); ok {
+		if ib, ok := c.asSmallInt(b); ok && !(a.IsConst() && b.IsConst()) {
+			switch op {
+			case OFpLt:
+				return c.BvCmp(OBvSlt, ia, ib)
+			case OFpLe:
+				return c.BvCmp(OBvSle, ia, ib)
+			case OFpEq:
+				return c.Eq(ia, ib)
+			}
+		}
+	}
+	return c.bin(op, Bool, a, b)
+}
 func (c *Ctx) FpNeg(a *Term) *Term           { return c.un(OFpNeg, FP, a, 0, 0) }
-func (c *Ctx) FpAbs(a *Term) *Term           { return c.un(OFpAbs, FP, a, 0, 0) }
+func (c *Ctx) FpAbs(a *Term) *Term {
+	if i, ok := c.asSmallInt(a); ok && !a.IsConst() {
+		// |to_fp(i)| = to_fp(|i|) for 32-bit values
+		return c.FpFromSBV(c.Ite(c.BvCmp(OBvSlt, i, c.BVC(64, 0)), c.BvNeg(i), i))
+	}
+	return c.un(OFpAbs, FP, a, 0, 0)
+}
 func (c *Ctx) FpIsNaN(a *Term) *Term         { return c.un(OFpIsNaN, Bool, a, 0, 0) }
 func (c *Ctx) FpIsInf(a *Term) *Term         { return c.un(OFpIsInf, Bool, a, 0, 0) }
 func (c *Ctx) FpRound(a *Term, mode int) *Term {
+	if a.Op == OFpFromSBV || a.Op == OFpFromUBV {
+		return a // an integer converted to FP is already integral
+	}
 	return c.un(OFpRound, FP, a, mode, 0)
 }
-func (c *Ctx) FpToSBV(a *Term) *Term   { return c.un(OFpToSBV, BV(64), a, 0, 0) }
+func (c *Ctx) FpToSBV(a *Term) *Term {
+	// to_sbv(to_fp(x)) = x when x is the extension of at most 32 bits (exactly representable)
+	if a.Op == OFpFromSBV && a.Args[0].Sort.W == 64 && (a.Args[0].Op == OSext || a.Args[0].Op == OZext) && a.Args[0].Args[0].Sort.W <= 32 {
+		return a.Args[0]
+	}
+	return c.un(OFpToSBV, BV(64), a, 0, 0)
+}
 func (c *Ctx) FpFromSBV(a *Term) *Term { return c.un(OFpFromSBV, FP, a, 0, 0) }
 func (c *Ctx) FpFromUBV(a *Term) *Term { return c.un(OFpFromUBV, FP, a, 0, 0) }
 
